@@ -56,6 +56,12 @@ Theorem T11_2_prepass : forall s,
 Proof. exact prepass_lit. Qed.
 Print Assumptions T11_2_prepass.
 
+(* the same with all three guards evaluated on the INPUT text *)
+Theorem T11_2_prepass_input : forall s,
+  g_tab s = true -> g_trail s = true -> g_blank s = true -> lit (prepass s) = lit s.
+Proof. exact prepass_lit_input. Qed.
+Print Assumptions T11_2_prepass_input.
+
 Theorem T11_2_minimize_ws : forall sc,
   g_script sc = true -> lit (concat (minimize_ws sc)) = lit (concat (new_of sc)).
 Proof. exact minimize_ws_lit. Qed.
@@ -116,8 +122,8 @@ Definition ex_text : text :=
    (32, false); (99, false); (32, false); (10, false); (10, false); (10, false); (10, false); (10, false);
    (120, false); (10, false); (10, false)]%N.
 Example guards_hold :
-  g_tab ex_text = true /\ g_trail (expandtabs4 ex_text) = true /\
-  g_blank (rmspace (expandtabs4 ex_text)) = true /\
+  g_tab ex_text = true /\ g_trail ex_text = true /\ g_blank ex_text = true /\
+  g_trail (expandtabs4 ex_text) = true /\ g_blank (rmspace (expandtabs4 ex_text)) = true /\
   plain (prepass ex_text) <> plain ex_text /\ lit (prepass ex_text) = lit ex_text.
 Proof. vm_compute. repeat split; discriminate. Qed.
 
